@@ -23,7 +23,7 @@ def run(ctx):
     ctx.assumptions += [
         "timestamps are ranks in a fixed table: past = 2001, future = 2100, pre-epoch = 1960, 'now' = the server clock; every one is years away from the wall clock",
         "patches are meta-only (no ops) on records holding a msgpack body; op semantics, caps and concurrent claims belong to C13/C12/C11",
-        "the expiry filter is exercised through GetByIndexStream on the key index (in-process gRPC server)",
+        "the expiry filter is exercised through the GetByIndexStream handler on the key index with a transport-less server stream (protobuf round trip of request and responses)",
     ]
     binary = ctx.go_build("swampkv")
     devs = kvlib.open_devs(ctx)
@@ -75,6 +75,7 @@ def run(ctx):
     if evict:
         run_.driver_env = {"SWAMPKV_PAR": "64"}
         run_.run_batches(kvlib.chunk(evict, 6 if thorough else 2), driver_workers=6, tlc_workers=6)
+    run_.run_retries()
     ctx.extra.update(run_.stats)
     ctx.extra["deviation_use_count"] = run_.used_count
     for hs in (plain, evict):
